@@ -1952,6 +1952,7 @@ impl MachineState {
         }
     }
 
+    #[allow(dead_code)]
     pub(crate) fn open_parsing_stream(
         &mut self,
         mut stream: Stream,
